@@ -298,6 +298,28 @@ fn faults_for(mode: Mode, tier: Tier, seed: u64, img: &ImageInfo) -> Vec<Fault> 
                 });
             }
         }
+        // whole-sector damage (lost or torn 512-byte sector): zeroed and garbage, every sector of
+        // a small file, a seeded sample of a large one
+        if mode != Mode::C04 {
+            let sectors: Vec<u64> = if small {
+                (0..len.div_ceil(512)).collect()
+            } else {
+                (0..24).map(|_| rng.below(len.div_ceil(512).max(1))).collect()
+            };
+            for sct in sectors {
+                out.push(Fault::Zero {
+                    file: fi,
+                    pos: sct * 512,
+                    len: 512,
+                });
+                out.push(Fault::Overwrite {
+                    file: fi,
+                    pos: sct * 512,
+                    len: 512,
+                    seed: rng.next_u64(),
+                });
+            }
+        }
         for _ in 0..b.two_site {
             if len < 2 {
                 break;
